@@ -166,12 +166,14 @@ def tag_text(n, md_style=0):
         if not nonempty:
             return ''
         lit = md_literal(kw)
-        if md_style == 0:
+        if md_style in (0, 2):
             return '{' + repr(lit) + '}'
         import pickle
         return ':' + pickle.dumps(lit).hex()
     if k == 'plain':
-        if len(nonempty) == 1 and 'md' not in nonempty:
+        # md_style 2 / 3: always a metadata block ({{...}} literal / pickled form), also where a simple tag would do - the same
+        # block text then occurs many times in one stream and across files (round 8: caches keyed by the block text)
+        if md_style < 2 and len(nonempty) == 1 and 'md' not in nonempty:
             for txt, tk in SIMPLE_TAGS.items():
                 if tk == nonempty:
                     return txt
